@@ -42,6 +42,11 @@ def concStoreLine (st : CsRun) (lineNo : Nat) (line : String) : Except String (C
         [s!"PROPFAIL C13 flush_whole_document {tag} (with everything settled the cache document lacks a secret the store serves, or holds another version of it)",
          s!"PROPFAIL C16 polled_like_any_other {tag} (cache behind the store after lookups)",
          s!"PROPFAIL C19 drop_only_if {tag} (a secret with a live handle is missing from, or stale in, the cache)"]) ++
+      (if n "by_refresh_bad" == 0 then [] else
+        [s!"PROPFAIL C11 poll_ok_fresh {tag} (a second store in the process, whose own service is never held: its Refresh failed, or returned nil without bringing its secret to its service's active version, while the first store's poll was in flight)"]) ++
+      (if n "by_lookup_bad" == 0 then [] else
+        [s!"PROPFAIL C16 concurrent_lookup_gets_handle {tag} (a second store in the process looked up a name the first store was looking up at the same time: its lookup failed or yielded a value its own service never served)",
+         s!"PROPFAIL C12 really_served {tag} (a second store's lookup yielded a value its own service never served)"]) ++
       (if n "upd_e_stale" == 0 then [] else [s!"PROPFAIL C15 no_lost_update {tag} (an updater on a looked-up secret is built from old bytes after a completed refresh)"]) ++
       (if n "cu_stale_get" == 0 then [] else [s!"PROPFAIL C15 next_get_sees_newest {tag}"]) ++
       (if ((lookup fs "cu_final").getD "2") == "2" then [] else [s!"PROPFAIL C15 no_lost_update {tag} (quiescent Get after two installs)"]) ++
